@@ -217,29 +217,52 @@ func checkApply(c ApplyCase) ev.Verdict {
 		v.Err = fmt.Errorf("the EscapeHTML setting changed more than spelling:\n on:  %s\n off: %s", outs[true], outs[false])
 		return v
 	}
-	// (5) ApplyIndent = Apply re-indented (default options escape HTML)
-	ri := lib.Apply(doc.Text(true), ref.OpsText(ops, true), lib.Options{Neg: true, Esc: true, Indent: c.Indent})
-	if ri.Panic != nil {
-		return ev.Verdict{Err: ri.Panic}
-	}
-	if ri.Err != nil {
-		v.Err = fmt.Errorf("ApplyIndent failed: %v", ri.Err)
-		return v
-	}
-	var buf bytes.Buffer
-	if err := stdjson.Indent(&buf, outs[true], "", c.Indent); err != nil {
-		v.Err = fmt.Errorf("standard library cannot indent Apply's output: %v", err)
-		return v
-	}
-	if !bytes.Equal(ri.Out, buf.Bytes()) || !bytes.Equal(ri.Out, ref.Indent(outs[true], c.Indent)) {
-		v.Err = fmt.Errorf("ApplyIndent is not Apply's output re-indented with %q:\n got:  %q\n want: %q", c.Indent, ri.Out, buf.Bytes())
+	// (5) ApplyIndent = Apply re-indented, under either EscapeHTML setting (ApplyIndent itself uses the
+	// defaults, i.e. on; ApplyIndentWithOptions must relate to ApplyWithOptions in the same way)
+	for _, esc := range []bool{true, false} {
+		ri := lib.Apply(doc.Text(esc), ref.OpsText(ops, esc), lib.Options{Neg: true, Esc: esc, Indent: c.Indent})
+		if ri.Panic != nil {
+			return ev.Verdict{Err: ri.Panic}
+		}
+		if ri.Err != nil {
+			v.Err = fmt.Errorf("ApplyIndent (EscapeHTML=%v) failed: %v", esc, ri.Err)
+			return v
+		}
+		var buf bytes.Buffer
+		if err := stdjson.Indent(&buf, outs[esc], "", c.Indent); err != nil {
+			v.Err = fmt.Errorf("standard library cannot indent Apply's output: %v", err)
+			return v
+		}
+		if !bytes.Equal(ri.Out, buf.Bytes()) || !bytes.Equal(ri.Out, ref.Indent(outs[esc], c.Indent)) {
+			v.Err = fmt.Errorf("ApplyIndent (EscapeHTML=%v) is not Apply's output re-indented with %q:\n got:  %q\n want: %q", esc, c.Indent, ri.Out, buf.Bytes())
+			return v
+		}
+		if esc {
+			// the default-options entry point must agree with the explicit one
+			var out []byte
+			var err error
+			if pn := ev.Safe(func() {
+				p, e := jp.DecodePatch([]byte(ref.OpsText(ops, true)))
+				if e != nil {
+					err = e
+					return
+				}
+				out, err = p.ApplyIndent([]byte(doc.Text(true)), c.Indent)
+			}); pn != nil {
+				return ev.Verdict{Err: pn}
+			}
+			if err != nil || !bytes.Equal(out, ri.Out) {
+				v.Err = fmt.Errorf("Patch.ApplyIndent differs from ApplyIndentWithOptions with default options: %q %v vs %q", out, err, ri.Out)
+				return v
+			}
+		}
 	}
 	return v
 }
 
 var applyUnit = ev.Unit[ApplyCase]{
 	Name: "apply-escaping",
-	Rule: "documents and patches in the encoder's own spelling whose names and strings hold <, >, &, U+2028/9, quotes, backslashes, control and non-BMP characters x 0-6 applicable operations x the same patch with passing test operations inserted (any location incl. the root) x indent of spaces/tabs; oracle: strict RFC 8259 recogniser + UTF-8 + value = reference result for both EscapeHTML settings; on => none of the five characters unescaped; off => no \\u003c/\\u003e/\\u0026 escape in the output; both outputs EqualOrdered; ApplyIndent = encoding/json.Indent and an independent re-indenter of Apply's bytes; passing tests leave the bytes identical (both settings); non-trivial = the result has one of the five characters in a member name and in a string value",
+	Rule: "documents and patches in the encoder's own spelling whose names and strings hold <, >, &, U+2028/9, quotes, backslashes, control and non-BMP characters x 0-6 applicable operations x the same patch with passing test operations inserted (any location incl. the root) x indent of spaces/tabs; oracle: strict RFC 8259 recogniser + UTF-8 + value = reference result for both EscapeHTML settings; on => none of the five characters unescaped; off => no \\u003c/\\u003e/\\u0026 escape in the output; both outputs EqualOrdered; ApplyIndent / ApplyIndentWithOptions = encoding/json.Indent and an independent re-indenter of Apply's / ApplyWithOptions' bytes under both settings; passing tests leave the bytes identical (both settings); non-trivial = the result has one of the five characters in a member name and in a string value",
 	Draw: drawApply, Check: checkApply,
 }
 
